@@ -242,9 +242,9 @@ fn d13_condition(m: &Model) -> bool {
 fn n_cases(prop: &str, tier: Tier) -> u64 {
     match (prop, tier) {
         ("C05", Tier::Quick) => 2_400,
-        ("C05", Tier::Thorough) => 40_000,
+        ("C05", Tier::Thorough) => 60_000,
         ("C06", Tier::Quick) => 1_600,
-        ("C06", Tier::Thorough) => 24_000,
+        ("C06", Tier::Thorough) => 40_000,
         _ => 10,
     }
 }
